@@ -229,7 +229,11 @@ Inductive op :=
   | FetchActive (req : mode) (body : list iocall)  (* with fetch_active_workspace(ws, mode=req): <one operation> *)
   | SaveAs
   | Path2Workspace                                 (* helper on a path: a second Workspace(path, mode="r") opened and closed *)
-  | MonitoredCopy (body : list iocall).            (* monitored_directory_copy(entity of this workspace) *)
+  | MonitoredCopy (body : list iocall)             (* monitored_directory_copy(entity of this workspace) *)
+  | CallsThenRaise (cs : list iocall)              (* an operation whose own Python code raises after (or without) its _io_call's *)
+  | MemRepack.                                     (* Python-level effect without file access: concatenated attributes edited in
+                                                      memory set Workspace.repack (also when the write that follows is refused,
+                                                      also on a closed workspace) *)
 
 Definition seq (a : world * option err) (f : world -> world * option err) : world * option err :=
   match a with
@@ -264,6 +268,11 @@ Definition step (w : world) (o : op) : world * option err :=
   | SaveAs => seq (close w) (open_ None)
   | Path2Workspace => (w, None)                  (* a separate Workspace object on mode "r": never touches this handle *)
   | MonitoredCopy body => fetch_active R body w
+  | CallsThenRaise cs => match io_calls w cs with
+                         | (w', None) => (w', Some EFail)
+                         | r => r
+                         end
+  | MemRepack => (set_repack w true, None)
   end.
 
 (* a script: every operation is attempted, exceptions are caught by the caller; outcomes are recorded *)
@@ -300,7 +309,7 @@ Definition explicit_reopen (o : op) : bool :=
 
 Definition calls_of (o : op) : list iocall :=
   match o with
-  | Calls cs | FetchActive _ cs | MonitoredCopy cs => cs
+  | Calls cs | FetchActive _ cs | MonitoredCopy cs | CallsThenRaise cs => cs
   | List_ dead => repeat remove_dead dead
   | _ => []
   end.
